@@ -331,7 +331,7 @@ func vSessGatedRun(sc vSessSchedule) *vSessLog {
 	defer r.finish()
 	c := r.c
 	c.stabilize() // the sender arrives at gate.connect
-	for _, st := range sc.Steps {
+	for n, st := range sc.Steps {
 		if r.status != "ok" || !func() bool { r.l.mu.Lock(); defer r.l.mu.Unlock(); return c.gated }() {
 			break
 		}
@@ -368,7 +368,7 @@ func vSessGatedRun(sc vSessSchedule) *vSessLog {
 			c.releaseReader(st.K, 250*time.Millisecond)
 			c.stabilize()
 		case "PeerDrops":
-			r.p.drop(0, false)
+			r.p.drop(0, n%2 == 1) // FIN or RST, fixed by the position in the schedule
 		case "PeerRecv":
 			c.waitFor(100*time.Millisecond, func() bool {
 				return r.l.curConn != c.connPeerIdx || !r.l.curAlive || r.l.updRecv[r.l.curConn] >= c.sentOnConn
